@@ -159,7 +159,23 @@ def check_C12(ctx, replay=None):
         inputs.append(bytes(rng.choice(b"aAmMdD64xX8_3iI2sSpPcClLeE 0") for _ in range(n)))
     if replay and replay.get("input_hex"):
         inputs = [bytes.fromhex(replay["input_hex"])]
-    r = ctx.run_harness(["getinfo"], "\n".join("x" + b.hex() for b in inputs) + "\n")
+    ginp = "\n".join("x" + b.hex() for b in inputs) + "\n"
+    r = ctx.run_harness(["getinfo"], ginp)
+    # alias resolution must not depend on the process either (package initialisation may iterate maps)
+    gouts = {r.stdout}
+    for _ in range(7 if ctx.tier == "quick" else 39):
+        gouts.add(ctx.run_harness(["getinfo"], ginp).stdout)
+    if len(gouts) != 1:
+        nbad += 1
+        diffs = []
+        outs = sorted(gouts)
+        for a, b in zip(outs[0].splitlines(), outs[1].splitlines()):
+            if a != b:
+                diffs.append((a, b))
+        p = ctx.violation("counterexample", dict(what="arch.GetInfo resolves a name differently in different process runs (order dependence at initialisation)",
+                                                 distinct_outputs=len(gouts), first_differences=diffs[:5],
+                                                 input_hex=(unhex(diffs[0][0].split()[0]).hex() if diffs else None)), True)
+        rewrite_with_replay_cmd(ctx, p)
     obs = []
     for ln in r.stdout.splitlines():
         f = ln.split()
